@@ -10,7 +10,7 @@ from pyvc import driver, effects
 OWNED = {("dissect/hypervisor/util/envelope.py", "_pack_attributes"): {"stream"}}
 WRITER = ("dissect/hypervisor/tools/envelope.py", "main")
 PASSTHROUGH = {("dissect/hypervisor/util/vmtar.py", "open"), ("dissect/hypervisor/util/vmtar.py", "VisorTarFile")}
-KINDS = ("open.mode", "mutator.module", "mutator.method", "dynamic", "owned.arg")
+KINDS = ("open.mode", "mutator.module", "mutator.method", "dynamic", "owned.arg", "store.memory")
 
 
 def extra_checks(rep, pid, ledger, known):
